@@ -197,6 +197,7 @@ type Fault struct {
 	Us        int64  `json:"us,omitempty"`
 	N         int    `json:"n,omitempty"`
 	Arg       string `json:"arg,omitempty"`
+	SlowUs    int64  `json:"slowUs,omitempty"` // errcode on Produce: the (error) response is held back this long
 }
 
 type CloseAt struct {
